@@ -177,12 +177,21 @@ func genScenario(prop string, rng *rand.Rand) *Scenario {
 	return sc
 }
 
+// onlyScenario >= 0: generate the scenarios as usual but execute only this one (targeted escalation)
+var onlyScenario = -1
+
+// dfsAny: DFS does not skip big scenarios (keeps the scenario numbering of the random mode)
+var dfsAny = false
+
 func runProp(prop string, seed int64, count, scheds, dfsBound, dfsCap int) {
 	rng := rand.New(rand.NewSource(seed))
 	for i := 0; i < count && rt.StuckTotal < 3; i++ {
 		sc := genScenario(prop, rng)
-		for dfsBound > 0 && sc.Big {
+		for dfsBound > 0 && sc.Big && !dfsAny {
 			sc = genScenario(prop, rng)
+		}
+		if onlyScenario >= 0 && i != onlyScenario {
+			continue // same generator state as the run that is being narrowed down, one scenario executed
 		}
 		if dfsBound > 0 {
 			n := 0
@@ -194,7 +203,7 @@ func runProp(prop string, seed int64, count, scheds, dfsBound, dfsCap int) {
 			continue
 		}
 		for s := 0; s < scheds && rt.StuckTotal < 3; s++ {
-			if sc.Big && s >= 4 {
+			if sc.Big && (s >= 24 || (s >= 4 && onlyScenario < 0)) {
 				break // large payloads make long lines: a few schedules are enough
 			}
 			st := &rt.Random{State: uint64(seed)*1000003 + uint64(i)*7919 + uint64(s)*104729 + 1, Stickiness: []int{0, 50, 80, 95}[s%4]}
